@@ -283,8 +283,10 @@ def _to_decimal(
     if isinstance(in_t, IntegerT):
         # Clamp input to valid range before scaling
         out_lo, out_hi = out_t.int_bounds
-        # Scale bounds for pre-multiplication check
-        pre_lo = out_lo // divisor
+        # Scale bounds for pre-multiplication check. round towards zero
+        # (floor division would round the negative lower bound *down*, and
+        # accept an input whose scaled value is below the decimal minimum)
+        pre_lo = -((-out_lo) // divisor)
         pre_hi = out_hi // divisor
         in_lo, in_hi = in_t.int_bounds
         val = _clamp_numeric_convert(val, (in_lo, in_hi), (pre_lo, pre_hi), in_t.is_signed, ctx)
